@@ -527,6 +527,17 @@ func c01hNewSessionProto(proto api.ProtocolName) (*c01hSession, string) {
 }
 
 func c01hNewSessionProtos(proto, upProto api.ProtocolName) (*c01hSession, string) {
+	routerName := c01hRouter
+	if upProto != proto {
+		routerName = c01hRouter + "-to-" + string(upProto)
+	}
+	return c01hNewSessionCfg(proto, upProto, c01hListener, routerName)
+}
+
+// c01hNewSessionCfg: listener names the stream filter configuration the proxy looks up
+// (streamfilter manager, keyed by listener name; none registered for c01hListener),
+// routerName one of the router configurations of c01hInit.
+func c01hNewSessionCfg(proto, upProto api.ProtocolName, listener, routerName string) (*c01hSession, string) {
 	c01hInit()
 	rec := &c01hRec{sig: make(chan struct{}, 1)}
 	vfake.Reset()
@@ -544,7 +555,7 @@ func c01hNewSessionProtos(proto, upProto api.ProtocolName) (*c01hSession, string
 	}
 	ctx := variable.NewVariableContext(context.Background())
 	_ = variable.Set(ctx, types.VariableAccessLogs, []api.AccessLog{})
-	_ = variable.Set(ctx, types.VariableListenerName, c01hListener)
+	_ = variable.Set(ctx, types.VariableListenerName, listener)
 	_ = variable.Set(ctx, types.VarProtocolConfig, []api.ProtocolName{proto})
 	down := vfake.NewServerSide("down")
 	_ = variable.Set(ctx, types.VariableConnection, down)
@@ -554,10 +565,6 @@ func c01hNewSessionProtos(proto, upProto api.ProtocolName) (*c01hSession, string
 		rec.dnB = append(rec.dnB, b...)
 		rec.mu.Unlock()
 		rec.notify()
-	}
-	routerName := c01hRouter
-	if upProto != proto {
-		routerName = c01hRouter + "-to-" + string(upProto)
 	}
 	p := NewProxy(ctx, &v2.Proxy{DownstreamProtocol: string(proto), UpstreamProtocol: string(upProto), RouterConfigName: routerName}).(*proxy)
 	down.FilterManager().AddReadFilter(p)
